@@ -2,7 +2,7 @@
 from ..facts import AnchorMissing, callee_def, op_place, op_const, is_bare
 from ..util import (SUBR, RTRAIT, ends, site, fn_key, callee_method, require, has_call, has_field, find_dispatch,
                     closure_bodies_created_in, transitive_closures, deep_atoms, direct_field, direct_place, origin,
-                    edge_is_true, place_fields)
+                    edge_is_true, place_fields, edges_where)
 from .. import drops, options
 from ..widths import norm
 from . import C03
@@ -47,6 +47,10 @@ def check(ctx):
     ctx.rule("C06-F", "every <td>/<th> becomes a cell of its row: td_to_render_tree hands its children to `pending` (which "
              "always calls the reducer) and its reducer returns Some(TableCell) on every path — an empty cell still occupies its column")
     ctx.guard("C06-F", rule_f)
+    ctx.rule("C06-G", "the colspan remap is unconditional: every RenderTable built by RenderTable::new is constructed after the "
+             "loop that rewrites the cells' colspans (columns never split by any row are collapsed into one; without that a "
+             "short spanning cell's estimate is divided down to zero and the cell is skipped)")
+    ctx.guard("C06-G", rule_g)
     ctx.guard("C06-C", widths.rule_estimate_merge, "C06-C")
 
 
@@ -337,6 +341,48 @@ def rule_e(ctx):
     uo = [(bb, t) for bb, t in td.calls(lambda cd, t: callee_method(t) == "unwrap_or")]
     okc = len(uo) == 1 and (op_const(uo[0][1]["args"][1]) or {}).get("int") == 1
     ctx.check(okc, "C06-E", "td:colspan-parse-or-1", td.span, td.id, "")
+
+
+def rule_g(ctx):
+    F = ctx.facts
+    b = F.one("RenderTable::new")
+    stores = set()
+    for b2, bb, _w, _acc in options.writes(F, "RenderTableCell", "colspan"):
+        if b2.id == b.id:
+            stores.add(bb)
+        elif b2.kind == "Closure" and b2.root == b.id:
+            stores |= {cbb for (cbb, _i, cdef, _o, _f) in b.closures_created() if cdef == b2.id or F.bodies[cdef].id in b2.id}
+    require(stores, "RenderTable::new no longer rewrites colspans")
+    # outermost loop around a rewrite: a header dominates the store and is reachable again from it
+    heads = []
+    for h in b.reachable():
+        if any(b.dominates(h, s_) and any(p in b.reach_from(s_) for p in b.pred(h) if b.dominates(h, p)) for s_ in stores):
+            heads.append(h)
+    heads = [h for h in heads if not any(o != h and b.dominates(o, h) for o in heads)]
+    ctx.floor("C06-G", "remap loops in RenderTable::new", len(heads), 1)
+    # an empty row list needs no remap
+    def pred(truth, src, a, s):
+        return truth is True and src and src[0] == "call" and callee_method(src[1]) == "is_empty" and \
+            ("arg", 1) in b.atoms(src[1]["args"][0])
+    cut = edges_where(b, pred)
+    aggs = [(x, st) for x in sorted(b.reachable()) for st in b.stmts(x)
+            if (st.get("rv") or {}).get("agg") == "adt" and ends((st.get("rv") or {}).get("adt"), "RenderTable")]
+    ctx.floor("C06-G", "RenderTable constructions in RenderTable::new", len(aggs), 1)
+    for x, st in aggs:
+        seen, stack = set(), [0]
+        while stack:
+            y = stack.pop()
+            if y in seen or y in heads:
+                continue
+            seen.add(y)
+            for s_ in b.succ(y):
+                if (y, s_) not in cut and not b.is_cleanup(s_):
+                    stack.append(s_)
+        okc = x not in seen and not any(s_ in b.reach_from(x) for s_ in stores)
+        ctx.check(okc, "C06-G", "RenderTable::new:table-built-after-remap", st["span"], b.id,
+                  "a RenderTable is constructed on a path that does not run the colspan remap loop first: columns that no row "
+                  "splits stay separate, a spanning cell's estimate is divided by its colspan and can reach zero, and "
+                  "into_cells then skips the cell with its text")
 
 
 def rule_f(ctx):
